@@ -369,6 +369,14 @@ func run(r *eng.Runner) {
 		for _, p := range names {
 			do("filters", "{% filter "+f+":"+p+" %}ab cd{% endfilter %}")
 		}
+		// small integer arguments against every text of the universe (cut points inside multi-byte text, widths, indexes)
+		for _, in := range names {
+			if strings.HasPrefix(in, "s") && !strings.HasPrefix(in, "sl") && !strings.HasPrefix(in, "st") {
+				for _, n := range smallInts {
+					do("filters", fmt.Sprintf("{{ %s|%s:%d }}", in, f, n))
+				}
+			}
+		}
 		if r.Stopped() {
 			return
 		}
@@ -456,8 +464,12 @@ func run(r *eng.Runner) {
 	}
 	// values that refer to themselves
 	for _, s := range []string{`{% for i in "abc" %}{% cycle c as c %}{% endfor %}`, `{% cycle c as c %}{% cycle c %}{{ c }}`, `{% for i in "ab" %}{% cycle "a" c as c %}{{ c }}{% endfor %}`, `{% cycle c as c silent %}{{ c|upper }}{% if c %}x{% endif %}`,
-		`{% set a = [a] %}{% set a = [a] %}{{ a }}{{ a|join:"," }}`, `{% with x=x %}{% with x=x %}{{ x }}{% endwith %}{% endwith %}`, `{% macro m(p=m) %}{{ p }}{% endmacro %}{{ m() }}`} {
+		`{% set a = [a] %}{% set a = [a] %}{{ a }}{{ a|join:"," }}`, `{% with x=x %}{% with x=x %}{{ x }}{% endwith %}{% endwith %}`, `{% macro m(p=m) %}{{ p }}{% endmacro %}{{ m() }}`,
+		`{% macro m(a=m()) %}x{% endmacro %}{{ m() }}`, `{% macro a(x=b()) %}x{% endmacro %}{% macro b(x=a()) %}y{% endmacro %}{{ a() }}`, `{% macro m(a=1) %}{{ m(m(a)) }}{% endmacro %}{{ m() }}`, `{% macro m(a) %}{% with z=m(a) %}{{ z }}{% endwith %}{% endmacro %}{{ m(1) }}`} {
 		r.DoIsolated(&Case{Src: eng.Q(s), Layer: "self-reference"}, 60*time.Second)
+	}
+	for _, lib := range []string{`{% macro m(a=m()) export %}x{% endmacro %}`, `{% macro m() export %}{{ m() }}{% endmacro %}`, `{% macro m(a=n()) export %}x{% endmacro %}{% macro n(a=m()) export %}y{% endmacro %}`} {
+		r.DoIsolated(&Case{Files: map[string]string{"/main": `{% import "lib" m, m as n %}{{ m() }}`, "/lib": lib}, Layer: "self-reference"}, 60*time.Second)
 	}
 	// resource caps
 	for _, s := range []string{"{% lorem 100000000 w %}", "{% lorem 99999999999999999999 p %}", `{{ "x"|center:99999999999 }}`, `{{ "x"|ljust:99999999999 }}`, `{{ "x"|rjust:99999999999 }}`, `{{ 1.5|floatformat:99999999999 }}`, `{{ "x"|rjust:iMin }}`, `{{ "x"|ljust:iMax }}`, `{{ "x"|center:iMin }}`,
@@ -465,6 +477,15 @@ func run(r *eng.Runner) {
 		r.DoIsolated(&Case{Src: eng.Q(s), Layer: "resource-caps"}, 60*time.Second)
 	}
 }
+
+// smallInts: -2..24 and a few larger widths (beyond the character count but below the byte count of the multi-byte texts)
+var smallInts = func() []int {
+	var l []int
+	for n := -2; n <= 24; n++ {
+		l = append(l, n)
+	}
+	return append(l, 40, 60, 64, 100, 130)
+}()
 
 func init() {
 	eng.RegisterCase("c01.case", func() eng.Case { return &Case{} })
